@@ -11,7 +11,7 @@ Driver for C15.  Requests:
 
 `<fs>` = nine characters (docs docs.del sdocs _sdocs sdocs.del index _index index.del meta), `a`bsent `e`mpty `t`orn `h`oled
 `f`ull; in `life` answers only what a directory listing shows is printed: `a`bsent, `e`mpty, `f` = not empty.
-`<events>` = `;`-separated `new | fill | seal | asuicide | ssuicide | suicide | start`, each optionally `@k` = the process dies after
+`<events>` = `;`-separated `new | fill | seal | sealpub | asuicide | ssuicide | suicide | start`, each optionally `@k` = the process dies after
 `k` operations of the procedure (if it has at least `k`).  Sealing uses the extracted generator facts, no write fault and one sorted-docs write.
 -/
 open SV SV.Proto SV.FileSet SV.SealOps SV.Lifecycle
@@ -70,6 +70,15 @@ def lifeGo (c : Cfg) : List String → Nat → Role → FileSet → List String 
     let parts := ev.splitOn "@"
     -- `suicide` = what a retention pass does to the fraction: `Active.Suicide` or `Sealed.Suicide` by the role held
     let name := if parts.headD "" = "suicide" then (if r = .sealed then "ssuicide" else "asuicide") else parts.headD ""
+    -- `sealpub` = `proxyFrac.Seal` up to and including the publication of the sealed fraction (everything but
+    -- `Active.Release`): the window in which a waiting `proxyFrac.Suicide` already runs `Sealed.Suicide`
+    if name = "sealpub" then
+      if !(enabledB r fs (.sealing lifePlan [] [])) then s!"err not-enabled {i}" else
+      let tr := sealTrace c srcFacts lifePlan [] []
+      let ops := tr.2.take (tr.2.length - (releaseOps c).length)
+      let fs' := run ops fs
+      lifeGo c rest (i + 1) .sealed fs' (s!"sealed:{(fmtFs fs').map listingChar}" :: acc)
+    else
     match proc? name, (parts.drop 1).head?.map String.toNat? with
     | some p, k =>
       if !(enabledB r fs p) then s!"err not-enabled {i}" else
